@@ -51,7 +51,13 @@ def rand_boards(r, n: int) -> List[tuple]:
         if r.random() < 0.3:
             from bridge_env import Player, Suit
             dda = {p: {s: r.randrange(14) for s in Suit} for p in Player}
-        out.append((dl, r.randrange(4), r.randrange(4), rand_id(r), dda))
+        bid_ = rand_id(r)
+        if r.random() < 0.15:
+            # identifiers that are falsy, or look like numbers / JSON words
+            bid_ = r.choice(['0', '', '00', 'None', 'null', 'false', '-1', '1e3', ' 7'])
+        if dda is not None and r.random() < 0.3:
+            dda = {p: {s: 0 for s in v} for p, v in dda.items()}     # an all-zero table
+        out.append((dl, r.randrange(4), r.randrange(4), bid_, dda))
     return out
 
 
@@ -246,6 +252,12 @@ def normal_jobs(r, n: int, prefix: str, max_boards: int = 3) -> List[tuple]:
             # team names outside ASCII
             cfg['teams'] = (r.choice(['Équipe Zürich', '東京', 'Ünïcødé']) + rand_id(r).strip(),
                             r.choice(['Łódź', 'Ελλάς', 'команда']) + rand_id(r).strip())
+        if k % 9 == 8:
+            # team names that look like protocol text (no double quote in them)
+            cfg['teams'] = (r.choice(['as North using', 'E/W : x', 'North plays 2C', 'Teams : N/S',
+                                      "O'Neil (2)", 'version 18', ' lead ']) + rand_id(r).rstrip(),
+                            r.choice(['x. E/W', 'seated', 'South bids 1NT', 'Dummy', '.e+-=',
+                                      'ready for teams']) + rand_id(r).rstrip())
         if k % 10 == 7:
             # the other table of the match, alive in the same process
             b2 = rand_boards(r, 1 + k % 2)
